@@ -153,11 +153,17 @@ def build(spec, hooks=True):
 
 
 def apply_ic(b):
+    """everything the scenario sets before the first run: position and speed of the last element and the duty cycle
+    (re-applying after reset re-applies exactly these, the duty cycle explicitly even when it was the default)"""
     ic = b.spec['ic']
     b.last.angular_position = mkq(ic['pos'])
     b.last.angular_speed = mkq(ic['speed'])
     if ic.get('pwm') is not None:
         b.motor.pwm = ic['pwm']
+    elif hasattr(b, 'pwm0'):
+        b.motor.pwm = b.pwm0
+    if not hasattr(b, 'pwm0'):
+        b.pwm0 = b.motor.pwm
 
 
 _RR = None
@@ -283,7 +289,7 @@ class Trace:
     pass
 
 
-def extract(b):
+def extract(b, raw=False):
     """copy the recorded histories into plain SI floats (own table); also checks nothing about them"""
     tr = Trace()
     pt = b.pt
@@ -314,6 +320,8 @@ def extract(b):
                     else:
                         out.append(s.value * SI.FACT[kind][s.unit])
             d['vars'][v] = out
+            if raw:
+                d['units'][v] = [(getattr(s, 'value', s), getattr(s, 'unit', None)) for s in series]
         tr.els.append(d)
     tr.pwm = tr.els[0]['vars'].get('pwm', [])
     return tr
@@ -344,7 +352,7 @@ def run_schedule(b, on_capture=None):
             if rec['exc']:
                 break
         elif o == 'reset':
-            b.captures.append((extract(b), list(runs)))
+            b.captures.append((extract(b, raw=getattr(b, 'raw_capture', False)), list(runs)))
             if on_capture:
                 on_capture(b)
             b.pt.reset()
